@@ -1014,7 +1014,7 @@ def rule_t_mover(ctx):
         outer = [h for h, bl in body.loops() if h != head and blocks <= bl]
         if outer:
             R.viol("%s:bounded:nested" % path, loop_where, "the bounded loop is nested inside another loop")
-        Rc = ctx.facts.consts.get("%s::raw::R" % ctx.facts.crate, {}).get("val")
+        Rc = ctx.batch_const()
         R.inst(fn=path, kind="bounded mover", trip=bd["trip"], R=Rc, exhaustion_exit="bb%d->bb%d" % exh)
         if bd["trip"] is None:
             R.viol("%s:bounded:trip" % path, loop_where, "loop bound is not a compile-time constant")
